@@ -25,11 +25,11 @@ class TLCResult:
 
 
 def run(module, cfg, workers=1, simulate=None, depth=None, seed=0, timeout=3600, env=None, cwd=None,
-        coverage=False, extra=(), deadlock=False, xss="64m", heap="4g", to_file=None, simulate_file=None):
+        coverage=False, extra=(), deadlock=False, xss="64m", heap="4g", to_file=None, simulate_file=None, jvm=()):
     """module: name of a .tla in spec/ (or absolute path); cfg: cfg file name in spec/ or absolute path."""
     cwd = cwd or SPEC
     meta = tempfile.mkdtemp(prefix="tlc-meta-")
-    cmd = ["java", "-XX:+UseParallelGC", f"-Xss{xss}", f"-Xmx{heap}", "-cp", JAR, "tlc2.TLC",
+    cmd = ["java", "-XX:+UseParallelGC", f"-Xss{xss}", f"-Xmx{heap}", *jvm, "-cp", JAR, "tlc2.TLC",
            "-workers", str(workers), "-metadir", meta, "-noGenerateSpecTE", "-config", cfg]
     if not deadlock:
         cmd.append("-deadlock")   # disables deadlock checking
